@@ -59,6 +59,16 @@ PROPS['C19'] = dict(
     unchecked=['strings longer than the stated bounds', 'qstrtokenizer, qstrdupf, qstrcatf, qstr_comma_number, qstrunique'],
 )
 
+LIST_BOUND = 'every list of exactly LN elements (quick LN 0..3, thorough 0..5), element sizes 1..2 symbolic, arbitrary bytes, every index in [-LN-3, LN+3], every limit 0..LN+2'
+PROPS['C09'] = dict(
+    technique='CBMC bounded contract checks on closed lists: every qlist operation from every list of a constant length, compared with the ideal sequence by walking the real links; queue/stack/grow wrappers',
+    text='For every doubly linked list of LN elements (built directly, all element sizes/bytes/limits symbolic) each qlist operation is shown to realise exactly the ideal-sequence transition: insertion/access/pop/removal at the front- or back-relative index, refusal (ERANGE/ENOBUFS/EINVAL) without any effect, exact count and byte total, reverse, forward walk, toarray/tostring (trailing-NUL rule), clear, setsize; queue FIFO, stack LIFO and grow concatenation through the real wrappers. Every state satisfying the representation invariant is covered for the stated lengths, so the history quantifier is discharged by induction over operations.',
+    design_ref='DESIGN.md section 3 C09',
+    note='Bounded stand-in in list length (<= 3 quick, <= 5 thorough) and element size (<= 2 bytes); unbounded in history by the invariant argument (meta). qlist_debug (stdio) not covered.',
+    trusted_base=COMMON_TRUST + [PTHREAD_TRUST, 'memcpy on constant-size elements: CBMC library model'],
+    unchecked=['lists longer than 5 elements, elements larger than 2 bytes', 'qlist_debug, qqueue/qstack *str/*int convenience wrappers'],
+)
+
 NOT_APPLICABLE = {
     'C20': 'needs a second, reference parser as specification and a proof that two tokenisers agree on every document; CBMC has no usable model of the fgets/vsnprintf/realloc-based code and a bounded stand-in (~10 symbolic bytes) cannot hold one nested section, so nothing the property is about would be decided (DESIGN.md section 4)',
 }
